@@ -23,7 +23,7 @@ FUNCTIONS = ["FractionValue.__float__/__lt__/__le__/__gt__/__ge__/__eq__/__ne__/
              "__truediv__/__rtruediv__/__mod__/__abs__/inv/reduce/copy/__old_cmp__/__eq__/__lt__/__float__ (+ total_ordering)", "FractionScalar.ConvertFractionValue/GetValue/"
              "CheckValidity/IsValid", "registered FractionValue conversion (UnitDatabase.Convert on a FractionValue)",
              "auxiliary, concrete: FractionValue.__str__/CreateFromString/CreateFromFloat"]
-FV_OPS = ["float", "lt", "le", "gt", "ge", "eq", "copy"]
+FV_OPS = ["float", "lt", "le", "gt", "ge", "eq", "copy", "edit_then_float"]
 FR_OPS = ["add", "sub", "mul", "div", "mod", "neg", "abs", "inv", "lt", "le", "gt", "ge", "eq", "radd_int", "rsub_int", "rmul_int", "rdiv_int", "float", "copy", "add_int"]
 QS = [2, 3, 4, 5, 8, 10, 16, 32, 64]
 BOUNDS = {
@@ -113,6 +113,15 @@ def run(cfg, V):
         op = cfg["op"]
         if op == "float":
             return {"r": float(f1) if not core.is_sym(V["n1"]) else f1.__float__()}
+        if op == "edit_then_float":
+            # the documented in-place edits of the parts must be seen by a later float() / comparison (no stale memo)
+            first = f1.__float__()
+            den = f1.fraction.denominator  # the denominator of the representation the Fraction currently holds (sign-normalised, possibly reduced)
+            f1.fraction.numerator = V["p2"]
+            second = f1.__float__()
+            f1.number = V["n2"]
+            third = f1.__float__()
+            return {"first": first, "second": second, "third": third, "lt": f1 < f2, "den": den}
         if op == "copy":
             c = copy.copy(f1)
             return {"eq": c == f1 and not (c != f1), "r": c.__float__(), "same_obj": c is f1 or c.GetFraction() is f1.GetFraction()}
@@ -185,6 +194,10 @@ def props(cfg, T, obs):
             if cfg.get("canary"):
                 P.append(("canary:float(FractionValue) is the number part", approx(obs["r"], T["n1"])))
             return P
+        if op == "edit_then_float":
+            return [("float() follows in-place edits of the fraction and of the number part",
+                     z3.And(approx(obs["first"], a1), approx(obs["second"], T["n1"] + R(T["p2"]) / term(obs["den"])), approx(obs["third"], T["n2"] + R(T["p2"]) / term(obs["den"])))),
+                    ("comparison after the edits uses the edited amount", z3.BoolVal(bool(obs["lt"])) == (T["n2"] + R(T["p2"]) / term(obs["den"]) < a2))]
         if op == "copy":
             return [("copy equals the original, denotes the same amount, shares no mutable part", z3.And(z3.BoolVal(bool(obs["eq"]) and not obs["same_obj"]), approx(obs["r"], a1)))]
         if op == "eq":
